@@ -73,7 +73,30 @@ def st_case(draw, threaded=None, multiprocess=False):
     d["stored"] = [t for t in d["stored"] if t != d["target"] and graphs.save_when_of(prov[t], t) > 0]
     if d["cfg"]["processor"] == "threaded_mailbox" and not multiprocess:
         d["cfg"]["max_workers"] = draw(st.sampled_from([1, 2, 2, 3]))
+    if multiprocess:
+        _force_forked_saver(d)
     return d
+
+
+def _force_forked_saver(d):
+    """By construction (not by luck) the request inlines a saver into the pool jobs: the first source is the only
+    parallel='process' plugin, a row-wise plugin on it is parallel, always saved, not rechunked, not pre-stored, and
+    is the target."""
+    spec = d["spec"]
+    src = next(n for n in spec["nodes"] if n["op"] == "source")
+    for n in spec["nodes"]:
+        if n.get("parallel") == "process":
+            n["parallel"] = True if n["op"] != "source" else None
+        if n["op"] == "source" and n is not src:
+            n.pop("parallel", None)
+    src["parallel"] = "process"
+    node = next((n for n in spec["nodes"] if n["op"] == "rowwise" and n.get("deps") == [src["name"]]), None)
+    if node is None:
+        node = dict(name="nf", op="rowwise", deps=[src["name"]], mul=2, add=1, target_rows=None)
+        spec["nodes"].append(node)
+    node.update(parallel=True, save_when=3, rechunk_on_save=False)
+    d["stored"] = [t for t in d["stored"] if t != node["name"]]
+    d["target"] = node["name"]
 
 
 def request(d, classes, run_dir, policy):
